@@ -106,11 +106,12 @@ pub fn alphabet(cfg: &Config) -> Alpha {
     }
     let end = cfg.pbase + (NF * FSZ) as u64;
     let up = |x: u64, a: u64| (x + a - 1) & !(a - 1);
-    let f4 = vec![cfg.pbase + 40 * FSZ as u64, cfg.pbase + 41 * FSZ as u64, (1u64 << 52) - 0x1000];
+    // the last target of every size is physical address 0 (an entry whose address field is all-zero is still an entry)
+    let f4 = vec![cfg.pbase + 40 * FSZ as u64, cfg.pbase + 41 * FSZ as u64, (1u64 << 52) - 0x1000, 0];
     let b2 = up(end, 0x20_0000);
-    let f2 = vec![b2, b2 + 0x20_0000, (1u64 << 52) - 0x20_0000];
+    let f2 = vec![b2, b2 + 0x20_0000, (1u64 << 52) - 0x20_0000, 0];
     let b1 = up(end, 0x4000_0000);
-    let f1 = vec![b1, b1 + 0x4000_0000, (1u64 << 52) - 0x4000_0000];
+    let f1 = vec![b1, b1 + 0x4000_0000, (1u64 << 52) - 0x4000_0000, 0];
     // indices 0..LEAF_IN_DOMAIN / 0..PARENT_IN_DOMAIN are the quantified domain; the last element of each list lacks PRESENT
     // (outside the quantified domain; explored as a deviation with a reduced, representation-level oracle)
     // index 5: PAT bit of huge pages (bit 12, overlaps the address field of 4 KiB-granular addresses: O2) — outside the domain too
